@@ -32,6 +32,7 @@ import numpy as np
 from . import common
 from .c01 import SPECS, same, quiet, brief, query_variants, SKIP_QUERIES, skip_now, public_queries
 from . import c06_wide
+from . import c06_attr
 
 
 def snap(v):
@@ -152,6 +153,7 @@ def _run(ctx, eff, own_tables, watch):
         if os.path.exists(f):
             os.remove(f)
     rounds = [(cname, mk, r) for cname, mk in SPECS.items() for r in range(2 if quick else 8)]
+    used, raised = {}, {}
     for cname, mk, rnd in rounds:
         spec = mk()
         cls = spec["cls"]
@@ -170,13 +172,14 @@ def _run(ctx, eff, own_tables, watch):
                 elif isinstance(v, tuple) and v and isinstance(v[0], np.ndarray):
                     inputs[k] = v[0].copy()
         queries = []
-        cand = set(n for n in dir(cls) if hasattr(getattr(cls, n, None), "cache_info")) | \
-            public_queries(cls, tables.get(cname, {}))
-        for m in sorted(cand):
-            if m in SKIP_QUERIES:
-                continue
+        # round 4: every public method that returns a value is a query, whatever it writes — the
+        # measures that store a link attribute (classified as mutators by C01's table) included
+        for m in c06_attr.all_queries(cls):
             for kw in query_variants(cls, m, spec["argsets"]):
                 queries.append((m, kw))
+        by_c01 = set(tables.get(cname, {}).get("mutators", {}))
+        ctx.count(f"{cname}:attribute-setting-measures-as-queries",
+                  len({m for m, _ in queries if m in by_c01}))
         usable = []
         base = {}
         for m, kw in queries:
@@ -185,8 +188,10 @@ def _run(ctx, eff, own_tables, watch):
             try:
                 base[(m, str(kw))] = snap(quiet(getattr(obj, m), **kw))
                 usable.append((m, kw))
+                used.setdefault(cname, set()).add(m)
             except Exception as ex:  # noqa
                 ctx.count(f"{cname}:query-raises:{type(ex).__name__}")
+                raised.setdefault(cname, set()).add(m)
         # repeated deterministic query returns an equal value
         for m, kw in usable:
             again = quiet(getattr(obj, m), **kw)
@@ -263,6 +268,19 @@ def _run(ctx, eff, own_tables, watch):
     watch.pool = []
     ctx.correspond("purity model over the translator's effect summaries predicts the observed "
                    "q2;q1;q2 interference flags", reqs, impl)
+
+    # round 4: order independence against fresh twins, link-attribute slots, coverage
+    watch.context = "order/attr oracles"
+    for cname, mk in SPECS.items():
+        spec = mk()
+        if spec.get("only_summary"):
+            continue
+        for _ in range(1 if quick else 3):
+            c06_attr.order_oracle(ctx, cname, spec, used, quick)
+    c06_attr.attr_oracle(ctx, eff, SPECS, used, quick)
+    c06_attr.int_length_oracle(ctx, used, quick)
+    c06_attr.coverage(ctx, eff, SPECS, used,
+                      {c: {m for m in ms if m not in used.get(c, ())} for c, ms in raised.items()})
 
     constructors(ctx)
     array_functions(ctx)
